@@ -296,4 +296,30 @@ theorem dims_replicate (n : Nat) (Q : Nat) : dimsOf (List.replicate n 0) (List.r
   | zero => rfl
   | succ n ih => simp only [List.replicate_succ, dimsOf, ih]; congr 1
 
+/-- the Mirjalili event space has no duplicate rows and `(max_demand + 1)` events per received-order combination -/
+theorem mirjalili_events_nodup_size (c : MirjaliliCfg α) :
+    (mirjaliliEvents c).Nodup ∧
+    (mirjaliliEvents c).length =
+      ((rangeSpace (List.replicate c.m 0) (List.replicate c.m (c.Q : Int))).filter fun k => decide (sumI k ≤ (c.Q : Int))).length * (c.maxDemand + 1) := by
+  unfold mirjaliliEvents
+  set combos := (rangeSpace (List.replicate c.m 0) (List.replicate c.m (c.Q : Int))).filter fun k => decide (sumI k ≤ (c.Q : Int)) with hc
+  have hnd : combos.Nodup := (C19.space_nodup _ _).filter _
+  constructor
+  · rw [List.nodup_flatMap]
+    constructor
+    · intro k _
+      apply List.Nodup.map _ List.nodup_range
+      intro a b h
+      simp only [List.cons.injEq, Nat.cast_inj, and_true] at h
+      exact h
+    · refine List.Pairwise.imp_of_mem ?_ hnd
+      intro a b _ _ hab
+      simp only [Function.onFun, List.disjoint_left, List.mem_map]
+      rintro x ⟨d, _, rfl⟩ ⟨d', _, h⟩
+      simp only [List.cons.injEq] at h
+      exact hab h.2.symm
+  · rw [List.length_flatMap]
+    simp only [List.length_map, List.length_range, List.map_const', List.sum_replicate]
+    rfl
+
 end MdpaxV.C14
